@@ -81,6 +81,7 @@ impl std::fmt::Display for Selector {
 
 impl Selector {
     fn do_matches(comps: &[SelectorComponent], node: &Handle) -> bool {
+        verif_tick!(SelectorMatch);
         match comps.first() {
             None => true,
             Some(comp) => match comp {
